@@ -84,12 +84,19 @@ func zvC35FromCase(c zvC35Case) (*zvC35Graph, bool) {
 // zvC35BF is the reference: Bellman-Ford over the nodes 0..lim-1 (edges that
 // touch a node >= lim do not exist for it). -1 = unreachable.
 func zvC35BF(g *zvC35Graph, lim, src int) [zvC35Max]int {
-	var d [zvC35Max]int
+	d, _ := zvC35BFHops(g, lim, src)
+	return d
+}
+
+// zvC35BFHops additionally returns the smallest number of edges among the
+// shortest paths (only used for the coverage counter "every shortest path
+// has at least four edges").
+func zvC35BFHops(g *zvC35Graph, lim, src int) (d, h [zvC35Max]int) {
 	for i := range d {
 		d[i] = -1
 	}
 	d[src] = 0
-	for round := 0; round < lim; round++ {
+	for round := 0; round <= lim; round++ {
 		changed := false
 		for a := 0; a < lim; a++ {
 			if d[a] < 0 {
@@ -100,8 +107,9 @@ func zvC35BF(g *zvC35Graph, lim, src int) [zvC35Max]int {
 				if w < 0 {
 					continue
 				}
-				if d[b] < 0 || d[a]+w < d[b] {
+				if d[b] < 0 || d[a]+w < d[b] || (d[a]+w == d[b] && h[a]+1 < h[b]) {
 					d[b] = d[a] + w
+					h[b] = h[a] + 1
 					changed = true
 				}
 			}
@@ -110,7 +118,7 @@ func zvC35BF(g *zvC35Graph, lim, src int) [zvC35Max]int {
 			break
 		}
 	}
-	return d
+	return d, h
 }
 
 type zvC35Stats struct {
@@ -130,7 +138,7 @@ func (s *zvC35Stats) flush(r *vh.Run) {
 	r.Count("graph_with_edge_to_unlisted_node", s.unlistedEdge)
 	r.Count("graph_with_selfloop", s.selfloop)
 	r.Count("unlisted_transit_would_shorten", s.viaUnlisted)
-	r.Count("path_of_four_or_more_edges", s.longPath)
+	r.Count("every_shortest_path_has_four_or_more_edges", s.longPath)
 	*s = zvC35Stats{nodes: s.nodes, edges: s.edges}
 }
 
@@ -157,7 +165,7 @@ func zvC35One(r *vh.Run, st *zvC35Stats, fam string, g *zvC35Graph, src int) {
 	// reference: the graph on the listed nodes; and, where unlisted end points
 	// exist, the graph that treats them as implicit nodes (both readings of
 	// "edge to a node that is not in the node list" are accepted)
-	dIgn := zvC35BF(g, g.Listed, src)
+	dIgn, hops := zvC35BFHops(g, g.Listed, src)
 	dInc := dIgn
 	if hasUnlisted {
 		dInc = zvC35BF(g, g.M, src)
@@ -178,6 +186,9 @@ func zvC35One(r *vh.Run, st *zvC35Stats, fam string, g *zvC35Graph, src int) {
 		}
 		if dInc[n] != dIgn[n] {
 			st.viaUnlisted++
+		}
+		if dIgn[n] >= 0 && hops[n] >= 4 {
+			st.longPath++
 		}
 	}
 	if anyUnreach {
@@ -252,9 +263,6 @@ func zvC35One(r *vh.Run, st *zvC35Stats, fam string, g *zvC35Graph, src int) {
 		}
 		if bad == "" && sum != p.Distance {
 			bad = fmt.Sprintf("edge weights sum to %d, Distance is %d", sum, p.Distance)
-		}
-		if bad == "" && len(p.Edges) >= 4 {
-			st.longPath++
 		}
 		if bad != "" {
 			r.Violation(sig("path"), g.toCase(fam, src), "SPT(%s)[%s]: %s", zvC35Nodes[src].Name, zvC35Nodes[n].Name, bad)
@@ -417,7 +425,7 @@ func TestVerifC35(t *testing.T) {
 	r.Rule("every directed graph on n<=4 nodes with each ordered pair in {no edge} + weight set (quick {0,1,3}, thorough {0,1,2,3}); the same with self-loops for n<=3; " +
 		"graphs with an extra node that is an edge end point but not in the node list; 5 nodes with every ordered pair in {no edge, 1}; 5 nodes with a 10-edge skeleton, each in {no edge}+weights; " +
 		"x every listed node as source (the n=4 family of all graphs: first and last node; it is closed under renaming nodes). evaluations = (graph, source) pairs; non-trivial = some listed node is unreachable from the source, or a node's minimal distance is smaller than the weight of its direct edge from the source")
-	r.Require("source_with_unreachable_node", "shortest_beats_direct_edge", "zero_distance_to_other_node", "graph_with_edge_to_unlisted_node", "graph_with_selfloop", "unlisted_transit_would_shorten", "path_of_four_or_more_edges")
+	r.Require("source_with_unreachable_node", "shortest_beats_direct_edge", "zero_distance_to_other_node", "graph_with_edge_to_unlisted_node", "graph_with_selfloop", "unlisted_transit_would_shorten", "every_shortest_path_has_four_or_more_edges")
 	if r.IsReplay() {
 		var c zvC35Case
 		r.ReplayCase(&c)
@@ -428,7 +436,7 @@ func TestVerifC35(t *testing.T) {
 		var st zvC35Stats
 		zvC35One(r, &st, c.Family, g, c.Src)
 		st.flush(r)
-		for _, k := range []string{"source_with_unreachable_node", "shortest_beats_direct_edge", "zero_distance_to_other_node", "graph_with_edge_to_unlisted_node", "graph_with_selfloop", "unlisted_transit_would_shorten", "path_of_four_or_more_edges"} {
+		for _, k := range []string{"source_with_unreachable_node", "shortest_beats_direct_edge", "zero_distance_to_other_node", "graph_with_edge_to_unlisted_node", "graph_with_selfloop", "unlisted_transit_would_shorten", "every_shortest_path_has_four_or_more_edges"} {
 			r.Count(k, 1)
 		}
 		return
